@@ -1,5 +1,5 @@
 """C01 - binary round trip: codec dispatch tables agree (T1-T5)."""
-from . import codec
+from . import codec, presence
 
 PROP = "C01"
 TECHNIQUE = "finite-domain abstract interpretation of encoder/decoder dispatch over the 18 proto types; interval domain for sign capability"
@@ -16,6 +16,8 @@ def run(ctx) -> None:
     for name, fn in (("T1", codec.rule_T1), ("T2", codec.rule_T2), ("T3", codec.rule_T3), ("T4", codec.rule_T4), ("T5", codec.rule_T5)):
         ctx.rules_run.append(name)
         fn(ctx)
+    ctx.rules_run.append("D2")
+    presence.rule_D2(ctx)   # presence survives the round trip only if set members are emitted (selected oneof / optional / empty sub-message)
     ctx.floor("T1", "types", len([o for o in ctx.obs if o.rule == "T1"]), 17)
     ctx.floor("T2", "signed/unsigned varint types", len([o for o in ctx.obs if o.rule == "T2"]), 8)
     ctx.floor("T3", "types", len([o for o in ctx.obs if o.rule == "T3"]), 30)
